@@ -1,6 +1,7 @@
 package main
 
 import (
+	"runtime"
 	"time"
 	"fmt"
 	"io"
@@ -123,10 +124,18 @@ func implSparseOps(line string) string {
 					// the process would end here; the next op must be another start
 					continue
 				}
-				if strings.HasSuffix(op, "i") { // pre-load from the saved state, state-init and state-save being the same file
+				if strings.HasSuffix(op, "i") { // pre-load from a copy of the state file as it is now
+					b, _ := os.ReadFile(state)
+					os.WriteFile(state+".init", b, 0644)
+					opts.StateInitFile = state + ".init"
+					opts.StateInitConcurrency = 2
+				}
+				if strings.HasSuffix(op, "j") { // state-init and state-save are the same file: a re-initialised
+					// sparse file has blanked it by the time it is read, so nothing is pre-loaded
 					opts.StateInitFile = state
 					opts.StateInitConcurrency = 2
 				}
+				goroutines := runtime.NumGoroutine()
 				switch op[1] {
 				case '1':
 					os.Remove(state)
@@ -142,15 +151,10 @@ func implSparseOps(line string) string {
 					return strings.Join(append(out, "open-error"), ",")
 				}
 				if opts.StateInitFile != "" {
-					// the pre-load runs in the background: wait until the store has been quiet for a while
-					last, quiet := store.ncalls(), 0
-					for quiet < 4 {
-						time.Sleep(500 * time.Microsecond)
-						if c := store.ncalls(); c == last {
-							quiet++
-						} else {
-							last, quiet = c, 0
-						}
+					// the pre-load runs in background goroutines (a feeder and the workers) that end when it is
+					// done: wait for them to be gone (no timing assumption; gives up after 20 s)
+					for t0 := time.Now(); runtime.NumGoroutine() > goroutines && time.Since(t0) < 20*time.Second; {
+						time.Sleep(200 * time.Microsecond)
 					}
 				}
 				h, err = sf.Open()
@@ -250,7 +254,7 @@ func runC10(cfg Config) {
 					ops = append(ops, "U")
 					down = false
 				case r < 12:
-					ops = append(ops, fmt.Sprintf("O%di", []int{0, 2, 3}[rng.Intn(3)]))
+					ops = append(ops, fmt.Sprintf("O%d%s", []int{0, 2, 3}[rng.Intn(3)], []string{"i", "i", "j"}[rng.Intn(3)]))
 					if !down {
 						// with the store up the background pre-load races with the state written at the end of
 						// NewSparseFile: save again once it has settled, so that the state file is defined
@@ -270,7 +274,7 @@ func runC10(cfg Config) {
 				// directed: populate and save; the cache file is lost; a restart re-creates it and starts to
 				// pre-load while the store is down; the process ends without another save; the next start finds
 				// a cache file of the right size and whatever state file the interrupted start left
-				ops = []string{fmt.Sprintf("R0:%d", L), "S", "D", fmt.Sprintf("O%di", []int{2, 3}[rng.Intn(2)])}
+				ops = []string{fmt.Sprintf("R0:%d", L), "S", "D", fmt.Sprintf("O%d%s", []int{2, 3}[rng.Intn(2)], []string{"i", "j"}[rng.Intn(2)])}
 				if rng.Intn(2) == 0 {
 					ops = append(ops, "U")
 				}
@@ -390,7 +394,7 @@ func (s *flakyStore) GetChunk(id desync.ChunkID) (*desync.Chunk, error) {
 	k := s.calls
 	s.mu.Unlock()
 	if k%s.failEvery == 0 {
-		return nil, fmt.Errorf("flaky store failure")
+		return nil, storeFailure(k / s.failEvery)
 	}
 	b, ok := s.data[id]
 	if !ok {
